@@ -352,9 +352,18 @@ func toSMTPErr(err error) *smtp.SMTPError {
 	if ok {
 		res.Code = ctxCode
 	}
-	ctxEnchCode, ok := ctxInfo["smtp_enchcode"].(smtp.EnhancedCode)
-	if ok {
-		res.EnhancedCode = ctxEnchCode
+	// exterrors.SMTPError stores its own EnhancedCode type in the fields. The
+	// code may be unset (replies of servers without ENHANCEDSTATUSCODES), the
+	// class-based default is kept then.
+	switch ctxEnchCode := ctxInfo["smtp_enchcode"].(type) {
+	case smtp.EnhancedCode:
+		if ctxEnchCode[0] > 0 {
+			res.EnhancedCode = ctxEnchCode
+		}
+	case exterrors.EnhancedCode:
+		if ctxEnchCode[0] > 0 {
+			res.EnhancedCode = smtp.EnhancedCode(ctxEnchCode)
+		}
 	}
 	ctxMsg, ok := ctxInfo["smtp_msg"].(string)
 	if ok {
